@@ -996,7 +996,7 @@ impl World {
     /// Brings the reference in step after the chain accepted `applied`.
     fn ref_accept(&mut self, applied: Move, observed: bool) -> Result<(), Violation> {
         let prev = self.rc.replayed.last().unwrap().clone();
-        let next = match prev.make_move(applied) {
+        let next = match crate::lib_api::reapply(&prev, applied) {
             Ok(b) => b,
             Err(e) => {
                 if self.on(C13) {
@@ -1176,20 +1176,32 @@ impl World {
 
     /// The unsafe fast path of the chain, used within its contract: the move is legal.
     fn op_push_unchecked(&mut self, m: &RMove) -> R {
-        if self.rc.outcome.is_some() || self.rc.len() >= MAX_CHAIN_LEN || m.kind == rm::K_NULL {
+        if self.rc.outcome.is_some() || self.rc.len() >= MAX_CHAIN_LEN {
             return Ok(Exec::Skipped);
         }
         let info = self.info().clone();
-        if !info.legal.contains(m) {
-            return Ok(Exec::Skipped);
-        }
-        let mv = match crate::full::move_of(m) {
-            Some(mv) => mv,
-            None => return Ok(Exec::Skipped),
+        let mv = if m.kind == rm::K_NULL {
+            // the null move is within push_unchecked's contract when the mover is not in check. A
+            // chain holding one cannot be replayed from its UCI text nor printed in SAN by design,
+            // so null moves are never pushed while C17 is judged; nor under C02 (unsafe route).
+            if self.on(C17) || self.on(C02) || info.in_check || self.chain.last().is_check() {
+                return Ok(Exec::Skipped);
+            }
+            self.stats.hit("probe.null-move-pushed-into-chain");
+            Move::NULL
+        } else {
+            if !info.legal.contains(m) {
+                return Ok(Exec::Skipped);
+            }
+            let mv = match crate::full::move_of(m) {
+                Some(mv) => mv,
+                None => return Ok(Exec::Skipped),
+            };
+            if mv.validate(self.chain.last()).is_err() {
+                return Ok(Exec::Skipped);
+            }
+            mv
         };
-        if mv.validate(self.chain.last()).is_err() {
-            return Ok(Exec::Skipped);
-        }
         let len0 = self.rc.len();
         unsafe {
             self.chain.push_unchecked(mv);
@@ -1757,7 +1769,7 @@ impl World {
         };
         let mut c = MoveChain::new(b);
         for (i, m) in moves.iter().enumerate() {
-            if let Err(e) = c.push(*m) {
+            if let Err(e) = crate::lib_api::repush(&mut c, *m) {
                 if self.on(C13) && same_game {
                     return Err(self.fail(
                         C13,
@@ -1790,6 +1802,9 @@ impl World {
             let want = self.parked[i].moves == self.rc.moves && self.parked[i].outcome == self.rc.outcome;
             let got1 = self.chain == self.parked[i].chain;
             let got2 = self.parked[i].chain == self.chain;
+            if got1 == (self.chain != self.parked[i].chain) || got2 == (self.parked[i].chain != self.chain) {
+                return Err(self.fail(C13, "equality", "== and != give the same answer for a chain and the original it was cloned from".into()));
+            }
             self.stats.hit(if want { "op.eq-original-equal" } else { "op.eq-original-diverged" });
             if got1 != want || got2 != want {
                 return Err(self.fail(
@@ -1898,8 +1913,11 @@ impl World {
             None => return Ok(Exec::Skipped),
         };
         let want = *twin.startpos() == self.rc.start && moves == self.rc.moves && outcome == self.rc.outcome;
-        let got1 = self.chain == twin;
-        let got2 = twin == self.chain;
+        let got1 = self.chain == twin && !(self.chain != twin);
+        let got2 = twin == self.chain && !(twin != self.chain);
+        if (self.chain == twin) == (self.chain != twin) || (twin == self.chain) == (twin != self.chain) {
+            return Err(self.fail(C13, "equality", format!("== and != give the same answer for a chain and its twin (variant {})", v % 11)));
+        }
         self.stats.hit(if want { "op.eq-equal" } else { "op.eq-unequal" });
         if got1 != want || got2 != want {
             return Err(self.fail(
@@ -1978,7 +1996,7 @@ impl World {
         self.chain = fresh;
         let mut spy = BaseMoveChain::<SpyRepeat>::new(Board::try_from(start).unwrap());
         for m in &moves {
-            let _ = spy.push(*m);
+            let _ = crate::lib_api::repush(&mut spy, *m);
         }
         spy.reset_outcome(outcome);
         self.spy = spy;
@@ -2032,7 +2050,7 @@ impl World {
         if let Ok(start) = Board::try_from(self.rc.start) {
             let mut spy = BaseMoveChain::<SpyRepeat>::new(start);
             for m in self.rc.moves.clone() {
-                let _ = spy.push(m);
+                let _ = crate::lib_api::repush(&mut spy, m);
             }
             spy.reset_outcome(self.rc.outcome);
             self.spy = spy;
@@ -2214,7 +2232,7 @@ impl World {
             match Board::try_from(self.rc.start) {
                 Ok(mut b) => {
                     for (i, m) in self.rc.moves.clone().iter().enumerate() {
-                        b = match b.make_move(*m) {
+                        b = match crate::lib_api::reapply(&b, *m) {
                             Ok(n) => n,
                             Err(e) => {
                                 return Err(self.fail(
